@@ -239,7 +239,7 @@ func main() {
 	rec(nil)
 	res.Sample(tcase{Values: []float64{10, -2, 1, 1}, RatePat: 2, Pcts: []float64{-90, 50}, Interval: time.Second, Mask: 3})
 	res.Sample(tcase{Values: []float64{3, 0}, Hist: true, HistTag: "-10_0_2.5", HistLim: 2, Interval: time.Second})
-	res.DistinctNontrivial = int64(len(distinct))
+	res.SetDistinctKeys(distinct)
 	res.States = int64(len(distinct))
 	res.Transitions = res.Evaluations
 	res.Traces = res.Evaluations
